@@ -533,6 +533,28 @@ def run(ctx):
                        "left" if numof(b["l"]) == lb else "?", "right" if numof(b["r"]) == rb else "?", flows))
     ctx.guard("R10.4", r4)
 
+    def r4_cmp():
+        # the four ordering operators are siblings: each compares numbers through as_number() and strings through to_string() with ITS OWN
+        # Rust operator, left operand first, and is false for every other pair of types (a comparison with NaN or between mixed types is
+        # false for all four - so none of them is the complement of another)
+        want = {"operation_less": "Lt", "operation_less_equal": "Le", "operation_greater": "Gt", "operation_greater_equal": "Ge"}
+        for name, op in sorted(want.items()):
+            fn = F.fn("datamodel::" + name)
+            pl, pr = fn.params[0]["b"], fn.params[1]["b"]
+            cmps = [b for b in fn.walk() if b.get("k") == "bin" and b["op"] in ("Lt", "Le", "Gt", "Ge")]
+            own = [b for b in cmps if b["op"] == op]
+            order_ok = all(hirq.mentions_local(b["l"], pl) and not hirq.mentions_local(b["l"], pr) and
+                           hirq.mentions_local(b["r"], pr) and not hirq.mentions_local(b["r"], pl) for b in cmps)
+            via = sorted({m["m"] for b in cmps for side in (b["l"], b["r"]) for m in hirq.walk(side) if m.get("k") == "mcall" and m["m"] in ("as_number", "to_string")})
+            deleg = [c.get("p") for c in fn.walk() if c.get("k") in ("call", "mcall") and (c.get("p") or "").startswith("datamodel::operation_")]
+            falses = [c for c in fn.walk() if c.get("k") == "call" and (((c.get("p") or "").endswith("Data::Boolean") and c["a"] and const_eval(c["a"][0]) is False) or
+                                                                       (c.get("p") or "").endswith("Data::Error"))]   # `>` answers Data::Error, its siblings false: both "not true"
+            ok = len(cmps) == 2 and len(own) == 2 and order_ok and via == ["as_number", "to_string"] and not deleg and len(falses) >= 1
+            ctx.ob("R10.4", site_key(fn, "ordering operator compares with its own operator, false for other types"), ok, fn.where,
+                   "comparisons %s (expected 2 x %s), left operand first: %s, through %s, delegates to %s, literal false results: %d" % (
+                       [b["op"] for b in cmps], op, order_ok, via, deleg or "nothing", len(falses)))
+    ctx.guard("R10.4", r4_cmp)
+
     # ------------------------------------------------------------------------------------------ R10.5
     ctx.rule("R10.5", "cache equivalence: each get_copy rebuilds its own type and initialises every field (through the constructor's "
                       "parameter->field mapping) from the same field of self, collections element-wise in order; compile() caches and "
